@@ -26,13 +26,13 @@ CLAIMED = {
     "C05": ("MIR CFG path rule (register -> barrier -> re-check -> park; lock-based variant via must-held guard analysis), SeqCst-fence-dominates-gate rule, publish=>notify must-follow rows, close-path wake rule (Drop::drop -> close -> drop_* chain: wake on every path not excused by a closed/last-handle test)",
             "At every park site of fibre (an uncovered park site fails the check) the blocking protocol excludes the classic lost-wakeup window on every path; every notifier gate read follows a "
             "SeqCst fence; every publishing event is followed by its notifier; closing the last handle of a side wakes the other side in all 92 close-path bodies. Static rule verdicts, not a liveness proof.", "§4 C05"),
-    "C06": ("dominance of every Poll::Pending by a registration that consumes the current Context/waker; call-graph pairing of registration kinds with Drop withdrawals; wake-forwarding reachability",
+    "C06": ("dominance of every Poll::Pending by a registration that consumes the current Context/waker; call-graph pairing of registration kinds with Drop withdrawals; wake-forwarding reachability; Ready-reachability without withdrawal for the wake-metered async-send queue",
             "All 58 hand-written Pending sites re-register the current waker; every future type whose registration is pointer-held or wake-metered withdraws it on Drop (and on forget-conversions); "
-            "wake-one protocols forward a consumed wake (11 demonstrated known findings).", "§4 C06"),
-    "C07": ("auto-trait/receiver-kind facts, payload publication order + release/acquire discipline on the spmc module, must-held guard analysis on the cursor list",
-            "Single-producer exclusivity by type, publish order/strength of the broadcast ring, and cursor-list maintenance on clone/drop of receivers. Per-receiver delivery order is not decided.", "§4 C07"),
-    "C08": ("the C04 rule instances restricted to the topic handles + call-graph reachability (publishing reaches no blocking primitive)",
-            "Disconnect-protocol clauses on the four topic handle types and publish-never-waits. Routing by subscription history is not decided.", "§4 C08"),
+            "wake-one protocols forward a consumed wake (11 demonstrated known findings); the three mpsc-bounded send futures withdraw their queue entry before every Ready.", "§4 C06"),
+    "C07": ("auto-trait/receiver-kind facts, payload publication order + release/acquire discipline on the spmc module, must-held guard analysis on the cursor list, capture-use analysis of left_right::modify closures",
+            "Single-producer exclusivity by type, publish order/strength of the broadcast ring, cursor-list maintenance on clone/drop of receivers, and replayable left-right update closures. Per-receiver delivery order is not decided.", "§4 C07"),
+    "C08": ("the C04 rule instances restricted to the topic handles + call-graph reachability (publishing reaches no blocking primitive) + capture-use analysis of left_right::modify closures",
+            "Disconnect-protocol clauses on the four topic handle types, publish-never-waits, and replayable subscriber-list updates (the closure given to modify never consumes a capture). Routing by subscription history is not decided.", "§4 C08"),
     "C09": ("field-set equality at mem::forget(self) (ptr::read multiset vs drop-glue fields), type selector + Drop reachability for payload owners, must-follow for reclaimed items, backward data-flow of slot indices (masked vs derived from the logical capacity)",
             "All 40 forget-conversions move each owning field exactly once; every payload-owning storage type drains on Drop; recovered items re-enter; slot indices of rings with a physical mask "
             "never derive unmasked from the logical capacity.", "§4 C09"),
@@ -50,8 +50,8 @@ CLAIMED = {
             "Leader election is one critical section, insert -> remove marker -> complete order, and completion/waiter registration share one mutex.", "§4 C15"),
     "C16": ("edge-dominance + backward data-flow (notification value derives from the removed entry) + exactly-once path rule",
             "Every listener notification is tied to the success edge of a removal, carries that entry's value and the remover's reason, exactly once per listed removal; a to-be-sent list is re-created between two readings.", "§4 C16"),
-    "C17": ("the C12 expiry-gate instances of iterators/snapshots + restore-is-an-insertion rows",
-            "Everything iterators and snapshots yield is expiry-gated; restore accounts cost, uses the store's shard index, and must announce entries to the policy (1 demonstrated known finding).", "§4 C17"),
+    "C17": ("the C12 expiry-gate instances of iterators/snapshots + restore-is-an-insertion rows + edge-dominance of refill returns by batch-full / shards-exhausted / finished edges",
+            "Everything iterators and snapshots yield is expiry-gated; a refill returns only with a full batch or exhausted shards; restore accounts cost, uses the store's shard index, and must announce entries to the policy (1 demonstrated known finding).", "§4 C17"),
     "C18": ("who-may-use rule on the singleton factory field, must-held guard analysis for the cycle guard, field-read sets of eq/hash, sibling effect-sequence agreement",
             "Once-cell discipline, cycle guard coverage, key identity, overwrite-on-register and Container/LocalContainer agreement over both feature configurations of fibre_ioc.", "§4 C18"),
     "C19": ("call-graph reachability (both front ends reach process_event), who-may-write the appender channels, one-send-per-iteration path rule, Block-arm edge region",
